@@ -81,8 +81,13 @@ def make_cer(rid, rc=None, fc=None, hints=None, packages=None, time_conditions=F
                                               "error_message": None if number % 3 == 0 else f"E934@{rid}"})
         requirement_constraints.setdefault("492", "FULFILLED" if number % 2 else "UNFULFILLED")
         requirement_constraints.setdefault("493", "UNFULFILLED" if number % 2 else "FULFILLED")
+    def hint_text(key):
+        # hint texts are free text of the AHBs: braces, percent signs, quotes and brackets occur
+        decoration = ["", "", " {SG4 IDE+24} zu 100 % 'x'", " (siehe [Kap. 3]) %s {0}"][sum(map(ord, str(key))) % 4]
+        return f"H{key}@{rid}{decoration}"
+
     return {
-        "hints": {k: f"H{k}@{rid}" for k in (hints or [])},
+        "hints": {k: hint_text(k) for k in (hints or [])},
         "format_constraints": format_constraints,
         "requirement_constraints": requirement_constraints,
         "packages": dict(packages or {}),
@@ -508,7 +513,9 @@ def run_requests(scenario, do_op, step_cap=200_000):
             if outcome.get("cancelled"):
                 break
             follow_rid = f"{rid}+{number}"
-            CER.set(follow_up.get("cer"))
+            if follow_up.get("cer") is not None:
+                CER.set(follow_up["cer"])
+            # (a follow-up without data of its own goes on with whatever the task's context holds: its own data)
             try:
                 sim.event("begin", follow_rid)
                 follow_outcome = {"ok": canon(await do_op(sim, dict(follow_up, rid=follow_rid)))}
